@@ -71,8 +71,29 @@ def saveload_case(args):
             return models.ResNet(D, in_k, out_k, depth=3, num_blocks=1, num_conv=1, equivariant=False, kernel_size=3, key=key)
         if kind == "DilResNet":
             return models.DilResNet(D, in_k, out_k, depth=2, num_blocks=1, conv_filters=filt, key=key)
+        # same-structured twins that differ in their NON-ARRAY leaves as well (settings kept as ordinary, non-static fields):
+        # `saved` is the model written to the file, the other one is the template it is loaded into
+        inner = lambda: models.ResNet(D, in_k, out_k, depth=2, num_blocks=1, num_conv=1, equivariant=False, kernel_size=3, key=key)
+        if kind == "GroupAverageInference":       # what eqx.nn.inference_mode flips before a model is saved for evaluation
+            return models.GroupAverage(inner(), [np.asarray(g) for g in ops], inference=saved)
+        if kind == "GroupAverageAlways":
+            return models.GroupAverage(inner(), [np.asarray(g) for g in ops[:4]], always_average=saved)
+        if kind == "GroupAverageOff":             # the reverse direction: an averaging template must not keep averaging
+            return models.GroupAverage(inner(), [np.asarray(g) for g in ops], always_average=not saved)
+        if kind == "GroupNormEps":
+            # order-1 channels only: for order-0 channels the layer hands eps to eqx.nn.GroupNorm, where it is a STATIC field, so
+            # twins with different eps would not be same-structured there
+            return ml.GroupNorm(geom.Signature((((1, 0), 2), ((1, 1), 1))), D, 1, eps=(0.05 if saved else 1e-5))
+        if kind == "ModelWrapper":
+            cnn = eqx.nn.Conv(D, 4, 3, 3, padding=1, key=key)
+            return models.ModelWrapper(D, cnn, out_k, True)
         raise RuntimeError(kind)
-    m1, m2 = make(jr.PRNGKey(seed)), make(jr.PRNGKey(seed + 1))
+    saved = True
+    m1 = make(jr.PRNGKey(seed))
+    saved = False
+    m2 = make(jr.PRNGKey(seed + 1))
+    if len(jax.tree_util.tree_leaves(m1)) != len(jax.tree_util.tree_leaves(m2)):
+        raise RuntimeError("twin models are not same-structured")
     # move m1 off its initial values so that zero-initialised leaves are exercised too
     leaves, tree = jax.tree_util.tree_flatten(eqx.filter(m1, eqx.is_array))
     pert = [l + 0.25 * jr.normal(jr.PRNGKey(100 + i), l.shape, l.dtype) if jnp.issubdtype(l.dtype, jnp.floating) else l
@@ -88,8 +109,13 @@ def saveload_case(args):
         l3 = jax.tree_util.tree_leaves(eqx.filter(m3, eqx.is_array))
         if len(l1) != len(l3) or any(a.shape != b.shape or not np.array_equal(np.asarray(a), np.asarray(b)) for a, b in zip(l1, l3)):
             fails.append({"key": {"what": "save/load: parameter leaves differ after loading", "model": kind}})
+        scal = lambda m: [v for v in jax.tree_util.tree_leaves(m) if isinstance(v, (bool, int, float))]
+        if [(type(v), v) for v in scal(m1)] != [(type(v), v) for v in scal(m3)]:
+            fails.append({"key": {"what": "save/load: scalar (non-array) leaves of the saved model are not restored", "model": kind}})
         x = geom.MultiImage({(0, 0): jr.normal(jr.PRNGKey(5), (2, 4, 4)), (1, 0): jr.normal(jr.PRNGKey(6), (1, 4, 4, 2))}, D, True)
-        call = (lambda m: m(x)) if kind == "ConvContract" else (lambda m: m(x)[0])
+        if kind == "GroupNormEps":
+            x = geom.MultiImage({(1, 0): jr.normal(jr.PRNGKey(5), (2, 4, 4, 2)), (1, 1): jr.normal(jr.PRNGKey(6), (1, 4, 4, 2))}, D, True)
+        call = (lambda m: m(x)) if kind in ("ConvContract", "GroupNormEps") else (lambda m: m(x)[0])
         y1, y3 = call(m1), call(m3)
         if list(y1.keys()) != list(y3.keys()) or any(not np.array_equal(np.asarray(y1[k]), np.asarray(y3[k])) for k in y1.keys()):
             fails.append({"key": {"what": "save/load: outputs differ after loading", "model": kind}})
@@ -144,7 +170,8 @@ def main(tier):
     chk.samples = [{"ops": [dict((k, v) for k, v in s.items() if k not in ("after", "after2", "mid", "vec", "img1")) for s in h],
                     "final": {k: h[-1]["after"][k] for k in ("order", "leads")}} for h in behaviours[500:502]]
     # ---- model serialisation -------------------------------------------------------------------------
-    kinds = ["ConvContract", "ConvBlock", "ResNet", "ResNetPlain"] + (["UNet", "DilResNet"] if tier == "thorough" else [])
+    kinds = ["ConvContract", "ConvBlock", "ResNet", "ResNetPlain", "GroupAverageInference", "GroupAverageAlways", "GroupAverageOff",
+             "GroupNormEps", "ModelWrapper"] + (["UNet", "DilResNet"] if tier == "thorough" else [])
     for fails in core.pmap(saveload_case, [(i, k, core.SEED + 31 * i) for i, k in enumerate(kinds)], procs=6, crash_value=[]):
         chk.evaluations += 1
         for f in fails:
